@@ -119,6 +119,9 @@ class PlotAdapter(Adapter):
                             return o, obs
                         raise
                     im = ax.images[0]
+                    s_ = pre["h"]
+                    irregular = any(len({b[1] - b[0] for b in s_[k]}) > 1 for k in ("xbins", "ybins"))
+                    obs["irregular_image_accepted"] = irregular
                     obs["ret"] = {"array": np.asarray(im.get_array(), dtype=float).tolist(), "extent": [float(v) for v in im.get_extent()],
                                   "xlabel": ax.get_xlabel(), "ylabel": ax.get_ylabel()}
                     self.plt.close(ax.figure)
@@ -190,6 +193,8 @@ class PlotAdapter(Adapter):
         def fail(f, exp, got):
             bad.append(f)
             det[f] = {"expected": exp, "observed": got}
+        if obs.get("irregular_image_accepted"):
+            fail("image_irregular", "refused: equal pixels cannot sit at the positions of unequal bins", "image drawn")
         if obs.get("unchanged") is False:
             fail("histogram_modified", "unchanged", "changed")
         r = obs["ret"]
